@@ -219,6 +219,17 @@ def run_job(job):
 
     hook.install(job.get("extra_roots"))
     sys.setrecursionlimit(20000)
+    try:
+        # a runaway allocation in one path must end as MemoryError in that path (reported like any other
+        # escaping exception), not as the kernel killing the worker and taking the whole pool down
+        import resource
+
+        lim = int(os.environ.get("VERIF_WORKER_MEM_GB", "6")) << 30
+        soft, hard = resource.getrlimit(resource.RLIMIT_AS)
+        if soft == resource.RLIM_INFINITY or soft > lim:
+            resource.setrlimit(resource.RLIMIT_AS, (lim, hard))
+    except Exception:  # noqa: BLE001
+        pass
     mod = importlib.import_module(job["module"])
     if hasattr(mod, "setup_models"):
         mod.setup_models()
